@@ -1,7 +1,7 @@
 (* The single entry point of the executable model: one S-expression in, one out. *)
 From Coq Require Import String.
 From Morph Require Import Base.UStr Base.Sexp Gen.Tables Model.SqlTypes Model.Spec20 Model.Terms Model.Data Model.Engine
-  Model.Mapping Model.Partition Model.Spec Model.Wire Model.NQuads Model.Config.
+  Model.Mapping Model.Partition Model.Spec Model.Wire Model.NQuads Model.Config Model.Writer.
 Local Open Scope N_scope.
 
 Definition run_c20 (tag : ustr) (args : list sexp) : option sexp :=
@@ -142,13 +142,34 @@ Definition run_cfg (tag : ustr) (args : list sexp) : option sexp :=
     end
   else None.
 
+(* ---- output family *)
+Definition de_file (x : sexp) : option (ustr * list ustr) :=
+  match x with L [A p; ls] => do ls' <- de_strs ls; Some (p, ls') | _ => None end.
+Definition de_run (x : sexp) : option run :=
+  match x with L [cl; ws] => do cl' <- de_strs cl; do ws' <- de_listof de_file ws; Some {| clears := cl'; writes := ws' |} | _ => None end.
+Definition run_out (tag : ustr) (args : list sexp) : option sexp :=
+  if tag_is tag "fs.history" then
+    match args with
+    | [f0; runs] => do f <- de_listof de_file f0; do rs <- de_listof de_run runs;
+                    Some (L (map (fun pc => L [A (fst pc); sx_strs (snd pc)]) (fold_left cli_run rs f)))
+    | _ => None
+    end
+  else if tag_is tag "payloads" then
+    (* line lengths in, payload lengths out (the bytes themselves do not matter to the policy) *)
+    match args with
+    | [lens] => do ls <- de_listof de_nat lens;
+                Some (L (map (fun p => sx_nat (length p)) (raw_payloads (map (fun n => repeat 120 n) ls))))
+    | _ => None
+    end
+  else None.
+
 Fixpoint first_some {T} (l : list (option T)) : option T :=
   match l with [] => None | Some x :: _ => Some x | None :: r => first_some r end.
 
 Definition run_case (x : sexp) : sexp :=
   match x with
   | L (A tag :: args) =>
-      match first_some [run_c20 tag args; run_map tag args; run_str tag args; run_cfg tag args] with
+      match first_some [run_c20 tag args; run_map tag args; run_str tag args; run_cfg tag args; run_out tag args] with
       | Some r => r
       | None => sx_err (u "bad-case")
       end
